@@ -66,6 +66,15 @@ def handleGraph (j : Json) : E Json := do
   let lim := match (fieldD j "limit" .null).getNat? with | .ok n => n | .error _ => Generated.loopBudget
   let cx : Ctx Nat := { view := gview ga, toJ := gToJ ga 3, limit := lim }
   let steps ← decSteps (machImpl cx) (← field j "path")
-  return Json.mkObj [("mach", .arr (driveGraph cx steps.toArray (.doc root) nexts {}).toArray)]
+  -- optional source: the search starts at the k-th match of another path (nested traverser)
+  let src : Option (Src Nat) ← match fieldD j "src" .null with
+    | .null => pure (some (.doc root))
+    | sj => do
+      let ssteps ← decSteps (machImpl cx) (← field sj "path")
+      let k := match (fieldD sj "k" (natJ 0)).getNat? with | .ok n => n | .error _ => 0
+      pure ((drainMach cx ssteps.toArray (.doc root) (k + 1) {})[k]?.map Src.nested)
+  match src with
+  | none => return Json.mkObj [("mach", .str "nosrc")]
+  | some src => return Json.mkObj [("mach", .arr (driveGraph cx steps.toArray src nexts {}).toArray)]
 
 end Treepath.Driver
